@@ -808,6 +808,7 @@ class ClientSession:
                             data = None
                             # The body is dropped, so is its framing.
                             chunked = None
+                            headers.popall(hdrs.TRANSFER_ENCODING, None)
                             expect100 = False
                             headers.popall(hdrs.EXPECT, None)
                             if headers.get(hdrs.CONTENT_LENGTH):
